@@ -35,17 +35,47 @@ type acfg struct {
 	Ext     bool
 	RelMax  int
 	RelWide bool
+	// Pkg: API surface - the operations go through the package-level functions of mempool with
+	// DefaultMemPool set to the allocator, instead of through the allocator's methods
+	Pkg bool
 }
 
 func (c *acfg) make() mempool.Allocator {
+	var a mempool.Allocator
 	switch c.Kind {
 	case "pooled":
-		return mempool.New(c.Buf, c.Free)
+		a = mempool.New(c.Buf, c.Free)
 	case "aligned":
-		return mempool.NewAligned()
+		a = mempool.NewAligned()
 	default:
-		return mempool.NewSTD()
+		a = mempool.NewSTD()
 	}
+	if c.Pkg {
+		// API surface "package-level functions": the exported DefaultMemPool is swapped for the
+		// allocator (execute restores it) and every operation goes through mempool.Malloc /
+		// Realloc / Append / AppendString / Free, which is what all of nbhttp calls
+		mempool.DefaultMemPool = a
+		return pkgAPI{}
+	}
+	return a
+}
+
+// pkgAPI drives whatever allocator mempool.DefaultMemPool is through the package-level functions.
+type pkgAPI struct{}
+
+func (pkgAPI) Malloc(size int) *[]byte                  { return mempool.Malloc(size) }
+func (pkgAPI) Realloc(p *[]byte, size int) *[]byte      { return mempool.Realloc(p, size) }
+func (pkgAPI) Append(p *[]byte, more ...byte) *[]byte   { return mempool.Append(p, more...) }
+func (pkgAPI) AppendString(p *[]byte, s string) *[]byte { return mempool.AppendString(p, s) }
+func (pkgAPI) Free(p *[]byte)                           { mempool.Free(p) }
+
+// sigKind names the allocator in signatures; a finding on the package-level surface has a
+// signature of its own (a defect of the wrappers is not a defect of the allocator).
+func (c *acfg) sigKind() string {
+	if c.Pkg {
+		return c.Kind + " via-package-functions"
+	}
+	return c.Kind
 }
 
 func uniq(xs []int) []int {
@@ -282,7 +312,7 @@ func overlap(a, b []byte) bool {
 
 func (w *world) fail(o op, kind, format string, a ...interface{}) {
 	if w.v == nil {
-		w.v = &viol{sig: fmt.Sprintf("%s %s %s", w.c.Kind, o.name(), kind), desc: fmt.Sprintf(format, a...)}
+		w.v = &viol{sig: fmt.Sprintf("%s %s %s", w.c.sigKind(), o.name(), kind), desc: fmt.Sprintf(format, a...)}
 	}
 }
 
@@ -627,7 +657,7 @@ func execute(c *acfg, prog []op, miss []int, checkAll bool) *runRes {
 		defer func() {
 			if e := recover(); e != nil {
 				msg := fmt.Sprint(e)
-				res.v = &viol{sig: fmt.Sprintf("%s %s panic: %s", c.Kind, cur.name(), digits.ReplaceAllString(msg, "N")),
+				res.v = &viol{sig: fmt.Sprintf("%s %s panic: %s", c.sigKind(), cur.name(), digits.ReplaceAllString(msg, "N")),
 					desc: fmt.Sprintf("%s panicked: %s", cur.String(), msg)}
 			}
 		}()
@@ -658,11 +688,13 @@ func execute(c *acfg, prog []op, miss []int, checkAll bool) *runRes {
 		}
 		res.key = w.key()
 	}
+	saved := mempool.DefaultMemPool
 	r := vsched.RunOnce(nil, miss, &vsched.Options{}, body)
+	mempool.DefaultMemPool = saved // (the package-level surface swaps it; nothing else may see that)
 	res.choices = vsched.ChoiceInts(r.Choices)
 	res.gets = len(r.Choices)
 	if res.v == nil && r.Panic != "" {
-		res.v = &viol{sig: c.Kind + " panic", desc: r.Panic}
+		res.v = &viol{sig: c.sigKind() + " panic", desc: r.Panic}
 	}
 	return res
 }
